@@ -548,6 +548,8 @@ def execute(scenario, open_sigs):
                 probe("prefix_collides_with_generated_name")
             events.append([opi, "emit", m.desc["m"], "raised" if raised is not None else text,
                            len(m.obj.cse_name_list)])
+            # nothing but the pool and the mappers keeps expressions alive between emissions
+            e = kids = kid_canons = None
             states.add(util.digest_of([[mid, list(mm.obj.cse_name_list and
                                                   [(n, str(tx)) for n, tx in mm.obj.cse_name_list])]
                                        for mid, mm in sorted(ms.items())])[:10])
